@@ -1,0 +1,42 @@
+//go:build verif
+
+package server
+
+// Read-only observation points for the /verif correspondence harness.
+// Compiled only with -tags verif; nothing here changes behaviour.
+
+// VerifSettings is an exported mirror of serverSettings.
+type VerifSettings struct {
+	Features    [10]bool // Hover, Completion, Formatting, Diagnostics, SemanticTokens, CodeActions, FoldingRanges, DocumentLinks, WorkspaceSymbol, InlineCompletion
+	MaxResults  int
+	Fuzzy       bool
+	ShowCounts  bool
+	Diag        [3]bool // UndeclaredAccounts, UndeclaredCommodities, UnbalancedTransactions
+	IndentSize  int
+	Align       bool
+	MinColumn   int
+	CLIEnabled  bool
+	CLIPath     string
+	CLITimeout  int64 // nanoseconds
+	MaxFileSize int64
+	MaxDepth    int
+}
+
+func verifMirror(st serverSettings) VerifSettings {
+	return VerifSettings{
+		Features: [10]bool{st.Features.Hover, st.Features.Completion, st.Features.Formatting,
+			st.Features.Diagnostics, st.Features.SemanticTokens, st.Features.CodeActions,
+			st.Features.FoldingRanges, st.Features.DocumentLinks, st.Features.WorkspaceSymbol,
+			st.Features.InlineCompletion},
+		MaxResults: st.Completion.MaxResults, Fuzzy: st.Completion.FuzzyMatching, ShowCounts: st.Completion.ShowCounts,
+		Diag:       [3]bool{st.Diagnostics.UndeclaredAccounts, st.Diagnostics.UndeclaredCommodities, st.Diagnostics.UnbalancedTransactions},
+		IndentSize: st.Formatting.IndentSize, Align: st.Formatting.AlignAmounts, MinColumn: st.Formatting.MinAlignmentColumn,
+		CLIEnabled: st.CLI.Enabled, CLIPath: st.CLI.Path, CLITimeout: int64(st.CLI.Timeout),
+		MaxFileSize: st.Limits.MaxFileSizeBytes, MaxDepth: st.Limits.MaxIncludeDepth,
+	}
+}
+
+// VerifGetSettings returns the settings currently in force.
+func (s *Server) VerifGetSettings() VerifSettings {
+	return verifMirror(s.getSettings())
+}
